@@ -5,7 +5,7 @@ from gen import extract_facts
 generate_facts = extract_facts.generate
 
 ID = "C03"
-LEAN_MODULES = ["Econf.Props.C03", "Econf.Props.Tie", "Econf.Props.LeafKf", "Econf.Props.LeafMerge", "Econf.Props.LeafAddNew", "Econf.Props.LeafMergeEx"]
+LEAN_MODULES = ["Econf.Props.C03", "Econf.Props.Tie", "Econf.Props.LeafKf", "Econf.Props.LeafMerge", "Econf.Props.LeafAddNew", "Econf.Props.LeafMergeEx", "Econf.Props.LeafMergeAll"]
 # the look-ups of the merge over the entry arrays: translated from lib/mergefiles.c on every run (gen/c2lean.py)
 LEAF_FNS = ["has_group", "first_entry", "first_definition", "setGroupList", "cpy_file_entry", "merge3"]
 THEOREMS = ["Econf.C03_lookup", "Econf.C03_nothing_else", "Econf.C03_no_duplicates", "Econf.C03_base_order",
@@ -26,7 +26,10 @@ THEOREMS = ["Econf.C03_lookup", "Econf.C03_nothing_else", "Econf.C03_no_duplicat
             # merge_existing_groups in parts: its shape, the search loop with break, the inner copying loop (= the model's newKeysOf); the NULL cases of all three
             "LeafKf.merge_existing_groups_shape", "LeafKf.me_last", "LeafKf.loop_brk", "LeafKf.C_me_newkeys", "LeafKf.mn_round", "LeafKf.ArrInv.append",
             "LeafKf.mnSel_model", "LeafKf.firstIdx_eq_length_iff", "LeafKf.me_override", "LeafKf.me_newval", "LeafKf.findEntry_eq", "LeafKf.ArrInv.congr",
-            "LeafKf.EntMem.ptr_str", "LeafKf.EntMem.reblock'", "LeafKf.GlMem.fst_unique", "LeafKf.insert_nogroup_null", "LeafKf.add_new_groups_null", "LeafKf.merge_existing_groups_null"]
+            "LeafKf.EntMem.ptr_str", "LeafKf.EntMem.reblock'", "LeafKf.GlMem.fst_unique", "LeafKf.me_newkeys_inv",
+            # merge_existing_groups whole: the outer loop over the base, against the model's mergeExisting
+            "LeafKf.C_merge_existing_groups", "LeafKf.mo_round", "LeafKf.mo_first", "LeafKf.meUpTo_model", "LeafKf.cpy_meUpTo",
+            "LeafKf.insert_nogroup_null", "LeafKf.add_new_groups_null", "LeafKf.merge_existing_groups_null"]
 RULE = ("pairs of entry lists over {group-less,A,B}x{x,y}: exhaustive up to the tier's length bound, built by parsing and by the setters "
         "on all constructor kinds, plus random larger pairs, pairs with valueless definitions, and pairs in which an input is the result of "
         "econf_readDirs or a member of a history; non-trivial = merge succeeded and both sides non-empty or one side an "
